@@ -252,6 +252,67 @@ theorem C16_unix_init_ignores_tail (st junk : List Nat) (len : Nat)
     omega
   simp only [initUnixCore, this]
 
+/-- The three Unix round trips as one statement: every Unix address the API can construct reads
+back as itself for EVERY length the kernel reports for it (`kernelLens`: with and without the
+terminating NUL for path names, 2 and 0 for the unnamed address). -/
+theorem C16_roundtrip_unix (a : Addr) (h : WF a)
+    (hu : match a with | .path _ | .abstr _ | .unnamed => True | _ => False) :
+    ∀ len ∈ kernelLens a, initUnix (storageUnix a) len = a := by
+  cases a with
+  | v4 _ _ => simp at hu
+  | v6 _ _ _ _ => simp at hu
+  | path p => exact C16_roundtrip_unix_path p h
+  | abstr n => exact C16_roundtrip_unix_abstract n h
+  | unnamed => exact C16_roundtrip_unix_unnamed
+
+/-- No two addresses share a kernel representation (Unix): when the storage bytes and the length
+handed to the kernel agree, the addresses are the same. A corollary of the round trip, so it holds
+for every path name, abstract name (NUL bytes included) and the unnamed address. -/
+theorem C16_unix_representation_injective (a b : Addr) (ha : WF a) (hb : WF b)
+    (hua : match a with | .path _ | .abstr _ | .unnamed => True | _ => False)
+    (hub : match b with | .path _ | .abstr _ | .unnamed => True | _ => False)
+    (hs : storageUnix a = storageUnix b) (hl : ptrLenUnix a = ptrLenUnix b) : a = b := by
+  have h1 := C16_kernel_sees_same_unix_address a ha hua
+  have h2 := C16_kernel_sees_same_unix_address b hb hub
+  rw [hs, hl] at h1
+  exact h1.symm.trans h2
+
+/-- No two IP addresses share a kernel representation, in the family's own structure and in the
+either-family storage. -/
+theorem C16_ip_representation_injective :
+    (∀ ip port ip' port', WF (.v4 ip port) → WF (.v4 ip' port') →
+      storageV4 ip port = storageV4 ip' port' → (Addr.v4 ip port) = .v4 ip' port') ∧
+    (∀ ip port flow scope ip' port' flow' scope',
+      WF (.v6 ip port flow scope) → WF (.v6 ip' port' flow' scope') →
+      storageV6 ip port flow scope = storageV6 ip' port' flow' scope' →
+      (Addr.v6 ip port flow scope) = .v6 ip' port' flow' scope') ∧
+    (∀ a b, WF a → WF b →
+      (match a with | .v4 _ _ | .v6 _ _ _ _ => True | _ => False) →
+      (match b with | .v4 _ _ | .v6 _ _ _ _ => True | _ => False) →
+      storageAny a = storageAny b → a = b) := by
+  refine ⟨?_, ?_, ?_⟩
+  · intro ip port ip' port' h h' hs
+    have h1 := C16_roundtrip_v4 ip port h
+    rw [hs, C16_roundtrip_v4 ip' port' h'] at h1
+    exact h1.symm
+  · intro ip port flow scope ip' port' flow' scope' h h' hs
+    have h1 := C16_roundtrip_v6 ip port flow scope h
+    rw [hs, C16_roundtrip_v6 ip' port' flow' scope' h'] at h1
+    exact h1.symm
+  · intro a b ha hb hia hib hs
+    have key : ∀ c, WF c → (match c with | .v4 _ _ | .v6 _ _ _ _ => True | _ => False) →
+        initAny (storageAny c) = c := by
+      intro c hc hic
+      cases c with
+      | v4 ip port => exact (C16_roundtrip_any_v4 ip port hc).2
+      | v6 ip port flow scope => exact (C16_roundtrip_any_v6 ip port flow scope hc).2
+      | path _ => simp at hic
+      | abstr _ => simp at hic
+      | unnamed => simp at hic
+    have h1 := key a ha hia
+    rw [hs, key b hb hib] at h1
+    exact h1.symm
+
 /-! ### Non-vacuity: concrete addresses meet the hypotheses and round-trip -/
 
 example : WF (.v4 [192, 168, 0, 1] 8080) := by simp [WF]
